@@ -337,6 +337,12 @@ var byteClasses = [][]byte{
 	[]byte("{"), []byte("}"), []byte("["), []byte(","), []byte(":"), []byte("e-07"), []byte("null"),
 }
 
+// ByteClasses: the byte sequences strings are generated from (for directed sweeps)
+func ByteClasses() [][]byte { return byteClasses }
+
+// MkStringer: a Stringer primitive with the given text
+func MkStringer(s string) Prim { return Prim{"Stringer", stringer{s}} }
+
 func GenBytes(r *Rng) []byte {
 	var n int
 	switch r.Intn(20) {
